@@ -17,12 +17,13 @@ import (
 	"pgregory.net/rapid"
 
 	"verif/fixwire"
+	"verif/peer"
 	"verif/rig"
 	"verif/stats"
 	"verif/vk"
 )
 
-const c20Rule = "rapid state machine on a virtual clock: 'advance time by a fraction or multiple of HeartBtInt' (timer events delivered at the deadlines the engine armed), inbound messages (in sequence, too high, replays, TestRequests with generated IDs), engine sends, reconnects, in every logged-on state incl. recovering and test-request-pending; HeartBtInt from the Logon (acceptor) or configuration, override on/off; non-trivial = virtual time crosses an armed deadline and an inbound message arrives in a pending state; distinct = distinct history"
+const c20Rule = "rapid state machine on a virtual clock: 'advance time by a fraction or multiple of HeartBtInt' (timer events delivered at the deadlines the engine armed), inbound messages (in sequence, too high, replays, TestRequests with generated IDs), engine sends, reconnects, in every logged-on state incl. recovering and test-request-pending; HeartBtInt from the Logon (acceptor) or configuration, override on/off, in-session reset Logons announcing another interval; non-trivial = virtual time crosses an armed deadline and an inbound message arrives in a pending state; distinct = distinct history"
 
 func c20() *stats.Collector {
 	c := stats.Get("C20")
@@ -337,6 +338,34 @@ func c20Property(t *rapid.T) {
 			relogon()
 		},
 		"engineSend": func(t *rapid.T) { s.engineSend(); s.flush() },
+		"peerResetLogon": func(t *rapid.T) {
+			// the counterparty resets the sequence numbers in session (Logon with ResetSeqNumFlag=Y,
+			// number 1) and may announce another interval with it: an acceptor that is not configured
+			// to override uses the interval announced in the peer's Logon - this one, from now on
+			if !s.r.V.IsLoggedOn() || cfg.begin == "FIX.4.0" {
+				return
+			}
+			if inResend, kept, _, _ := s.r.V.ResendInfo(); inResend || len(kept) > 0 {
+				// (messages kept from before a reset are a matter of C01/C04, see DESIGN 9a: a kept
+				// TestRequest of the old numbering would be answered later and blur this check)
+				return
+			}
+			s.link, s.pendingReplays = nil, nil
+			s.p.NextOut = 1
+			s.p.History = map[int]*peer.Sent{}
+			peerHB = rapid.SampledFrom([]int{1, 5, 30, 60}).Draw(t, "peer-heartbtint-this-logon")
+			v.hb = wantHB()
+			_, f := s.p.Next("A", s.p.LogonBody(peerHB, true))
+			s.logf("peer resets in session, announcing %ds", peerHB)
+			s.deliver(f, true)
+			v.feat["in-session-reset-logon"] = true
+			if s.r.V.IsLoggedOn() {
+				if got := s.r.V.HeartBtInt(); got != v.hb {
+					vk.Violation(t, c, "C20/heartbeat-interval-not-adopted/in-session-logon", "engine uses %v, expected %v (in-session Logon announced %ds, configured %ds, override %v, initiator %v)\n%s", got, v.hb, peerHB, cfgHB, override, cfg.initiator, s.history())
+				}
+			}
+			relogon()
+		},
 		"garbage": func(t *rapid.T) {
 			// a frame the stream framer hands over but the message parser refuses (MsgType not the
 			// third field / BodyLength wrong): no message, but the line is evidently not dead
